@@ -855,11 +855,27 @@ func genProgram(r *rng, kind string, focus string) *program {
 	case "reader":
 		// thread 0 only looks up (C16)
 		var ops []string
+		if !isCache {
+			// keys no writer touches, stored last (in a colliding layout they sit in overflow buckets): the hit path of
+			// LoadOrStore / LoadOrCompute on them is a lookup and must not wait either
+			for i := 0; i < 3; i++ {
+				p.prefill = append(p.prefill, fmt.Sprintf("store stable%d %s", i, v()))
+			}
+		}
 		for j := 0; j < 2+r.intn(2); j++ {
 			if isCache {
 				ops = append(ops, []string{"get ", "getexp ", "getttl "}[r.intn(3)]+key())
 			} else {
-				ops = append(ops, "load "+key())
+				switch r.intn(4) {
+				case 0:
+					ops = append(ops, fmt.Sprintf("loadorstore stable%d %s", r.intn(3), v()))
+				case 1:
+					ops = append(ops, fmt.Sprintf("loadorcompute stable%d %s", r.intn(3), v()))
+				case 2:
+					ops = append(ops, fmt.Sprintf("load stable%d", r.intn(3)))
+				default:
+					ops = append(ops, "load "+key())
+				}
 			}
 		}
 		if isCache {
@@ -872,6 +888,17 @@ func genProgram(r *rng, kind string, focus string) *program {
 			ops[0], ops[len(ops)-1] = ops[len(ops)-1], ops[0]
 		}
 		p.threads[0] = ops
+		if !isCache {
+			// the stable keys stay present: no writer clears the map in these programs (an absent key would send
+			// LoadOrStore / LoadOrCompute down the writing path, which may wait)
+			for i := 1; i < len(p.threads); i++ {
+				for j, l := range p.threads[i] {
+					if l == "clear" {
+						p.threads[i][j] = "delete " + key()
+					}
+				}
+			}
+		}
 	}
 	return p
 }
